@@ -215,6 +215,16 @@ def value_objects(ctx, tmp):
             "exposure_time": None if v == 2 else 30.0, "region": None if v == 3 else box(v, v + 1, 0, 1),
             "timespan": None if v == 1 else Timespan(astropy.time.Time("2024-01-01T00:00:00", scale="tai"), astropy.time.Time("2024-01-01T00:00:30.123456789", scale="tai")),
         })
+    # records whose set fields are falsy (0, 0.0, False) and records of the elements that join two dimensions
+    reg.insertDimensionData("detector", {"instrument": "I", "id": 0, "full_name": "d0", "raft": "R0", "name_in_raft": "S0"})
+    reg.insertDimensionData("group", {"instrument": "I", "name": "g"})
+    for e, seq in ((100, 0), (101, 1)):
+        reg.insertDimensionData("exposure", {"instrument": "I", "id": e, "obs_id": f"o{e}", "physical_filter": "f1", "day_obs": 20240101, "group": "g", "seq_num": seq,
+                                             "exposure_time": 0.0 if seq == 0 else 30.0, "dark_time": 0.0, "has_simulated": seq == 1, "can_see_sky": seq == 0,
+                                             "azimuth": 0.0, "zenith_angle": 0.0 if seq == 0 else None})
+    reg.insertDimensionData("visit_definition", {"instrument": "I", "visit": 1, "exposure": 100}, {"instrument": "I", "visit": 2, "exposure": 101})
+    for det in (0, 1):
+        reg.insertDimensionData("visit_detector_region", {"instrument": "I", "visit": 1, "detector": det, "region": box(1 + det * 0.5, 1.5 + det * 0.5, 0, 1)})
     u = b.dimensions
     scf = StorageClassFactory()
 
@@ -312,6 +322,10 @@ def value_objects(ctx, tmp):
                                               day_obs=20240101, universe=u)
             exp = reg.expandDataId(req_)
             dataids += [req_, full, exp, exp.subset(u.conform(["instrument", "visit"]))]
+    for extra in ({"visit": 1, "detector": 0}, {"visit": 1, "detector": 1}, {"visit": 1, "exposure": 100}, {"visit": 2, "exposure": 101, "detector": 0},
+                  {"exposure": 100}, {"exposure": 101, "detector": 0}):
+        exp = reg.expandDataId(instrument="I", **extra)
+        dataids += [exp, DataCoordinate.standardize(exp.mapping, universe=u), DataCoordinate.standardize(exp.required, universe=u)]
     dataids.append(DataCoordinate.make_empty(u))
     for d in dataids:
         ctx.nontrivial.add(("dataid", str(d), d.hasFull(), d.hasRecords()))
@@ -322,7 +336,7 @@ def value_objects(ctx, tmp):
             ("pickle", lambda x: pickle.loads(pickle.dumps(x))),
         ])
     # dimension records
-    for el in ("instrument", "detector", "physical_filter", "visit", "day_obs"):
+    for el in ("instrument", "detector", "physical_filter", "visit", "day_obs", "exposure", "group", "visit_definition", "visit_detector_region"):
         for rec in reg.queryDimensionRecords(el, instrument="I"):
             ctx.nontrivial.add(("record", el, str(rec.dataId)))
             roundtrips("DimensionRecord", rec, [
@@ -342,6 +356,43 @@ def value_objects(ctx, tmp):
             ("json", lambda x: DatasetRef.from_json(x.to_json(), universe=u)),
             ("pickle", lambda x: pickle.loads(pickle.dumps(x))),
         ])
+    # several refs read back inside ONE persistence context (its caches are shared): composites, their components and refs that
+    # share a UUID, in every order
+    try:
+        parent_t = DatasetType("exp_like2", u.conform(["instrument", "visit"]), "ExposureF")
+        parent = DatasetRef(parent_t, DataCoordinate.standardize(instrument="I", visit=1, universe=u), run="some/run")
+        family = [parent, parent.makeComponentRef("wcs"), parent.makeComponentRef("image"), parent.makeComponentRef("wcs"),
+                  DatasetRef(parent_t, DataCoordinate.standardize(instrument="I", visit=2, universe=u), run="some/run")]
+    except Exception as e:
+        family = []
+        ctx.notes.append(f"component refs unavailable here: {type(e).__name__}")
+    import itertools as _it
+
+    orders = list(_it.permutations(range(len(family)), 3)) if family else []
+    if ctx.quick():
+        rng.shuffle(orders)
+        orders = orders[:30]
+    for form, enc, dec in (("simple", lambda x: x.to_simple(), lambda s_: DatasetRef.from_simple(s_, universe=u)),
+                           ("json", lambda x: x.to_json(), lambda s_: DatasetRef.from_json(s_, universe=u))):
+        for order in orders:
+            seq = [family[i] for i in order]
+            ctx.evaluations += 1
+            ctx.count(f"ref-sequence-in-one-context:{form}")
+            ctx.nontrivial.add(("ref-seq", form, order))
+
+            def read_all(items):
+                return [dec(enc(x)) for x in items]
+            try:
+                back = PersistenceContextVars().run(read_all, seq)
+            except Exception as e:
+                viol(f"reading {[str(x.datasetType.name) for x in seq]} ({form}) inside one persistence context raised {type(e).__name__}: {str(e)[:80]}",
+                     f"ref-seq-raise:{form}:{order}", {"kind": "ref-sequence", "form": form, "order": list(order)})
+                continue
+            for x, y in zip(seq, back):
+                if not (x == y and x.id == y.id and x.datasetType == y.datasetType and x.dataId == y.dataId and x.run == y.run):
+                    viol(f"reading {[str(z.datasetType.name) for z in seq]} ({form}) inside one persistence context: {x} came back as {y}",
+                         f"ref-seq:{form}:{order}", {"kind": "ref-sequence", "form": form, "order": list(order)})
+                    break
     # timespans inside YAML / JSON documents
     from lsst.daf.butler.time_utils import TimeConverter
 
